@@ -8,8 +8,11 @@
    "x","y".  The module SHAPES are an enumerated configuration (-DH_SHAPES=..., 6 numbers: shape of x and y in
    M1, M2, M3); each module is then "finished" by the real add_item calls a front end would make.
      shape 0 nothing | 1 `export n` + data n | 2 `export n` + empty func n | 3 `import n` | 4 `forward n` + local empty func n
-   SYMBOLIC: the history (<= H_NSTEPS steps, each one of load M1|M2|M3, load_external (x|y, address A|B),
-   link (resolver NULL | resolver that knows only "y")), its length, and the redefinition permission.
+   SYMBOLIC: the history = H_NSTEPS steps, each one of 7: load M1|M2|M3, load_external x|y (a fresh address every
+   time), link (resolver NULL | resolver that knows only "y"); and the redefinition permission.  Every check is made
+   when a step completes, so histories of exactly H_NSTEPS steps cover all shorter ones.  Explored with
+   `cbmc --paths` (one path per history: merging the alternatives of a step makes every item pointer symbolic and
+   gives no verdict); -DH_PIN=perm,step,... fixes ONE concrete history (reachability witnesses).
    Stubs (stated in the evidence): _MIR_get_thunk / _MIR_redirect_thunk (machine code in mir-x86_64.c) are routed
    to a bump allocator of thunk objects that records the redirection target; set_interface is a harness function
    that only counts (the real interfaces generate code: C01/C03).
@@ -245,11 +248,21 @@ static void h_step_link (int r) {
 void harness (void) {
   h_setup_ctx ();
   for (int k = 0; k < 3; k++) h_build_module (k);
-  h_perm = nd_bool ();
+#ifdef H_PIN /* one concrete history (reachability witnesses, counterexample documentation): permission, then H_NSTEPS steps */
+  static const int h_pin[H_NSTEPS + 1] = {H_PIN};
+  h_perm = h_pin[0];
+#else
+  if (nd_bool ()) h_perm = 1; else h_perm = 0; /* a branch, so that the value is a CONSTANT on each path (cbmc --paths does not learn values
+                                                  from branch conditions: a symbolic flag would fork again at every later use) */
+#endif
   MIR_set_func_redef_permission (h_ctx, h_perm);
   /* every check is made when a step completes, so the histories of exactly H_NSTEPS steps cover all shorter ones (prefixes) */
   for (unsigned s = 0; s < H_NSTEPS; s++) {
+#ifdef H_PIN
+    unsigned op = (unsigned) h_pin[s + 1];
+#else
     unsigned op = (unsigned) nd_below (7);
+#endif
     switch (op) {
     case 0: h_step_load (0); break;
     case 1: h_step_load (1); break;
